@@ -55,6 +55,9 @@ STRUCTS = [
     dict(name='T4', beh='transparent', kind='tuple', fields=[F('0', 'u8', 'sd'), F('1', 'Vec<u16>')]),
     dict(name='T5', beh='transparent', kind='tuple', fields=[F('0', 'u16')]),
     dict(name='T6', beh='transparent', kind='tuple', fields=[F('0', 'u8', 'd'), F('1', 'Vec<u8>')]),
+    # `with` on the wrapped field of a transparent struct (honoured since the fix: commit 29a8ce0)
+    dict(name='T8', beh='transparent', kind='named', fields=[F('w', 'Wide', '', 'wide4')]),
+    dict(name='T9', beh='transparent', kind='tuple', fields=[F('0', 'u8', 'sd'), F('1', 'Option<u16>', '', 'leg_u16')]),
     dict(name='T7', beh='transparent', kind='named', fields=[F('x', 'u32', 'sd'), F('a', 'u16'), F('y', 'Vec<u8>', 'sd')]),
 ]
 GENERICS = [
@@ -211,6 +214,8 @@ def main():
     enum_case('r_invalid_behaviour', 'invalid', [(False, ['u8'])], False)
     enum_case('r_struct_attr_on_enum', 'union', [(False, ['u8'])], False, struct_attr=True)
     enum_case('r_tag_with_field', 'tag', [(False, []), (False, ['u8'])], False)
+    add('r_tag_braces', 'DEg-(np:)', f'{D}\n#[ssz(enum_behaviour = "tag")]\npub enum E {{ V0 {{}} }}', False)
+    add('r_tag_parens', 'DEg-(up:|u:)', f'{D}\n#[ssz(enum_behaviour = "tag")]\npub enum E {{ V0(), V1 }}', False)
     enum_case('r_union_two_fields', 'union', [(False, ['u8', 'u16'])], False)
     enum_case('r_union_no_field', 'union', [(False, ['u8']), (False, [])], False)
     enum_case('r_union_named_field', 'union', [(True, ['u8'])], False)
